@@ -9,6 +9,7 @@ THEOREMS = ["Mesa.Computed." + t for t in (
     "C17_minimal_partial", "C17_cached_read_is_free", "C17_cycle_rejected_partial",
     "C17_no_stale_refuted_with_reading_handler", "C17_cycle_rejected_refuted_after_intermediate_write")]
 COUNTS = {"quick": 1500, "thorough": 40000}
+EXHAUSTIVE = {"thorough": True}
 TRUSTED = [
     "a Computed's function is a read tree (what it returns depends only on the Observables / Computables it reads, in the "
     "order it reads them); arbitrary Python side effects of such functions are not modelled (only assignments to Observables)",
@@ -71,6 +72,36 @@ KNOWN = {
         "matches": lambda sc, clause: clause.split(":")[0] == "cycle-not-rejected",
     },
 }
+
+def extra(ctx):
+    """thorough: exhaustive small scope — all 200 depth-2 trees over two Observables (plus a chained Computable) x all
+    6^4 sequences of assignments / reads: implementation vs model vs oracle"""
+    if ctx.tier != "thorough":
+        return
+    import multiprocessing as mp
+
+    trees = list(C.exhaustive_trees())
+    step = 5
+    jobs = [(trees, i, min(i + step, len(trees))) for i in range(0, len(trees), step)]
+    n = bad = 0
+    first = None
+    with mp.get_context("fork").Pool(16) as pool:
+        for res in pool.imap_unordered(C.exhaustive_chunk, jobs):
+            scs = [core.Scenario(l, {}) for l, _, _ in res]
+            mobs = core.model_obs(DRIVER, scs)
+            for (lines, obs, cl), mo in zip(res, mobs):
+                n += 1
+                if obs != mo or cl:
+                    bad += 1
+                    first = first or (lines, obs, mo, cl)
+    ctx.cov["exhaustive_scenarios"] = n
+    ctx.cov["exhaustive_rule"] = "200 trees x 1296 op sequences, chain c1 -> c0"
+    if first:
+        lines, obs, mo, cl = first
+        ctx.violation("exhaustive", {"kind": "impl-counterexample" if cl else "no-failing-input", "ops": lines,
+                                     "impl_observations": obs, "model_observations": mo, "oracle_clause": cl,
+                                     "failing": bad}, no_input=not cl)
+
 
 if __name__ == "__main__":
     import sys
